@@ -60,6 +60,9 @@ def history(rng, v, nsteps):
         elif r < 85:
             n = rng.choice([0, 1, 2, 7, rng.below(1 << 20), (1 << 32) - 1, (1 << 32) - 2]) if bits == 32 else \
                 rng.choice([0, 1, 5, 0xffffffff, (rng.below(1 << 32) << 32) | 0xffffffff, (1 << 64) - 1, rng.below(1 << 64)])
+            if rng.below(3) == 0:
+                # relative to where the context stands: the block it is in, its neighbours (the counter the engine holds is already one ahead of the cached block)
+                n = (pos[ob] // 64 + rng.choice([0, 1, 1, 2, -1])) % (1 << bits)
             steps.append('%s.%d.%d' % ('s' if has_seek else 'S', ob, n))
             pos[ob] = 64 * n
         elif r < 90 and len(live) > 1:
